@@ -97,52 +97,65 @@ def cargo_build(package, profile="dev", features=None, extra=None, cwd=SIM):
 # ------------------------------------------------------------------------------------------
 
 def fan_out(jobs, timeout=3600):
-    """jobs: list of dicts {cmd, progress (optional path), tag}. Runs them WORKERS at a time.
-    Returns list of results in job order: dict(tag, rc, report (parsed last stdout line or None),
-    stdout, stderr, progress_case)."""
+    """jobs: list of dicts {cmd, progress (optional path), tag}. Runs them WORKERS at a time, output
+    captured in files (no pipe can fill up). Returns results in job order: dict(tag, rc, report
+    (parsed last JSON line of stdout or None), stdout, stderr, progress_case = index of the run in progress)."""
+    import tempfile
+    os.makedirs(WORK, exist_ok=True)
     results = [None] * len(jobs)
     running = {}
     nxt = 0
     deadline = time.time() + timeout
-    while nxt < len(jobs) or running:
-        while nxt < len(jobs) and len(running) < WORKERS:
-            j = jobs[nxt]
-            p = subprocess.Popen(j["cmd"], stdout=subprocess.PIPE, stderr=subprocess.PIPE, text=True,
-                                 cwd=j.get("cwd"), env=j.get("env"))
-            running[nxt] = p
-            nxt += 1
-        done = []
-        for i, p in running.items():
-            if p.poll() is not None:
-                done.append(i)
-        if not done:
-            if time.time() > deadline:
-                for p in running.values():
-                    p.kill()
-                raise HarnessError("worker timeout after %ds" % timeout)
-            time.sleep(0.01)
-            continue
-        for i in done:
-            p = running.pop(i)
-            out, err = p.communicate()
-            j = jobs[i]
-            report = None
-            for line in reversed(out.strip().splitlines()):
-                line = line.strip()
-                if line.startswith("{"):
+    tmpdir = tempfile.mkdtemp(prefix="fanout-", dir=WORK)
+
+    def read(path):
+        with open(path, "rb") as f:
+            return f.read().decode("utf-8", errors="replace")
+
+    try:
+        while nxt < len(jobs) or running:
+            while nxt < len(jobs) and len(running) < WORKERS:
+                j = jobs[nxt]
+                fo = open(os.path.join(tmpdir, "%d.out" % nxt), "wb")
+                fe = open(os.path.join(tmpdir, "%d.err" % nxt), "wb")
+                p = subprocess.Popen(j["cmd"], stdout=fo, stderr=fe, cwd=j.get("cwd"), env=j.get("env"))
+                running[nxt] = (p, fo, fe)
+                nxt += 1
+            done = [i for i, (p, _, _) in running.items() if p.poll() is not None]
+            if not done:
+                if time.time() > deadline:
+                    for p, _, _ in running.values():
+                        p.kill()
+                    raise HarnessError("worker timeout after %ds" % timeout)
+                time.sleep(0.01)
+                continue
+            for i in done:
+                p, fo, fe = running.pop(i)
+                fo.close()
+                fe.close()
+                out = read(fo.name)
+                err = read(fe.name)
+                j = jobs[i]
+                report = None
+                for line in reversed(out.strip().splitlines()):
+                    line = line.strip()
+                    if line.startswith("{"):
+                        try:
+                            report = json.loads(line)
+                        except ValueError:
+                            report = None
+                        break
+                progress_case = None
+                if j.get("progress") and os.path.exists(j["progress"]):
                     try:
-                        report = json.loads(line)
+                        progress_case = int(open(j["progress"]).read().strip() or "-1")
                     except ValueError:
-                        report = None
-                    break
-            progress_case = None
-            if j.get("progress") and os.path.exists(j["progress"]):
-                try:
-                    progress_case = json.load(open(j["progress"]))
-                except ValueError:
-                    progress_case = None
-            results[i] = dict(tag=j.get("tag"), rc=p.returncode, report=report, stdout=out, stderr=err,
-                              progress_case=progress_case, cmd=j["cmd"])
+                        progress_case = None
+                results[i] = dict(miri_seed=j.get("miri_seed"), tag=j.get("tag"), rc=p.returncode, report=report, stdout=out[-20000:], stderr=err[-200000:],
+                                  progress_case=progress_case, cmd=j["cmd"])
+    finally:
+        import shutil
+        shutil.rmtree(tmpdir, ignore_errors=True)
     return results
 
 
